@@ -80,7 +80,7 @@ where
     steps.push(Step {
         a: a_id,
         b: b_id,
-        separate: true,
+        separate: false,
     });
     if ckk_bipart_rec(partition, weights, tolerance, steps) {
         return true;
